@@ -51,6 +51,22 @@
 (*   kind "adv": a named table that is well formed but adversarial for     *)
 (*     totality (DONT_ADVANCE cycles, indices at the table end, ...) or    *)
 (*     whose headers lie about the counts and lengths that follow.         *)
+(* fam = "cnt": a feature whose lookup list has a BOUNDARY SIZE.  allsorts *)
+(*   collects the lookup indices of the feature it applies into a scratch  *)
+(*   vector with InlineCap inline slots that spills to the heap            *)
+(*   (gpos::apply_features: tiny_vec!([u16; 128])), sorts it, drops the    *)
+(*   duplicates and applies each lookup once.  n = lookupIndexCount drawn  *)
+(*   from 2^k - 1, 2^k, 2^k + 1 for k in SizeExps (InlineCap = 2^7 is      *)
+(*   demanded by Sanity); tbl = the table; feat = the feature that carries *)
+(*   the list (GPOS: base features of the default shaper; GSUB: default    *)
+(*   features); arr = "distinct" n lookups listed ascending, "desc" listed *)
+(*   descending, "same" one lookup listed n times (duplicates are legal).  *)
+(*   Model of the collection: Collected(list) keeps every index whatever   *)
+(*   the size (CollectTotal: nothing is lost or refused beyond the inline  *)
+(*   capacity), ApplyOrder = sorted without duplicates.  Printed with the  *)
+(*   case: napply (number of lookup applications) and spill (the list does *)
+(*   not fit the inline slots); vacuity only - the judge demands a         *)
+(*   returned well-formed run.                                             *)
 (*   The text strings over the font's classes come from MC_Shaper (mode    *)
 (*   "txt"): ligature at the start / middle / end of the run and           *)
 (*   components left on the stack at the end of text are strings such as   *)
@@ -59,7 +75,8 @@
 EXTENDS Integers, Sequences, FiniteSets, TLC, Json
 
 CONSTANTS CycleLen,      \* cycles of 1 .. CycleLen contextual lookups
-          ChainOver      \* chains of 1 .. RecursionLimit + 1 + ChainOver contextual lookups
+          ChainOver,     \* chains of 1 .. RecursionLimit + 1 + ChainOver contextual lookups
+          SizeExpLo, SizeExpHi   \* boundary sizes 2^k - 1, 2^k, 2^k + 1 for k in SizeExpLo .. SizeExpHi
 
 RecursionLimit == 2      \* src/gsub.rs SUBST_RECURSION_LIMIT
 
@@ -81,6 +98,22 @@ AdvNames == {"ctx-da-self", "ctx-da-cycle2", "ctx-da-pingpong", "ctx-da-start-st
              "nc-format10-unit4", "nc-format10-unit8", "cls-format10-unit4", "nc-deleted", "no-chains",
              "empty-chain", "hdr-nchains-huge", "hdr-nsubtables-huge", "hdr-nfeatures-huge",
              "hdr-chainlength-huge", "hdr-subtable-length-huge", "hdr-subtable-length-short"}
+
+\* ---- boundary sizes of a feature's lookup list ---------------------------------------
+InlineCap == 128          \* src/gpos.rs apply_features: tiny_vec!([u16; 128])
+RECURSIVE Pow2(_)
+Pow2(k) == IF k = 0 THEN 1 ELSE 2 * Pow2(k - 1)
+BoundarySizes == UNION {{Pow2(k) - 1, Pow2(k), Pow2(k) + 1} : k \in SizeExpLo .. SizeExpHi}
+CntFeats(tbl) == IF tbl = "gsub" THEN {"liga", "ccmp"} ELSE {"kern", "mark", "dist"}
+Arrangements == {"distinct", "desc", "same"}
+\* the lookupIndex array of the feature
+FeatureList(n, arr) == [i \in 1 .. n |-> IF arr = "same" THEN 0 ELSE IF arr = "desc" THEN n - i ELSE i - 1]
+\* the scratch vector: the first InlineCap indices sit inline, the rest on the heap - all of them are kept
+Collected(list) == [inline |-> SubSeq(list, 1, IF Len(list) < InlineCap THEN Len(list) ELSE InlineCap),
+                    heap   |-> SubSeq(list, InlineCap + 1, Len(list))]
+CollectTotal(list) == LET s == Collected(list) IN s.inline \o s.heap = list
+ApplySet(list) == {list[i] : i \in DOMAIN list}          \* sorted, duplicates dropped: each lookup once
+CntCase(tbl, ft, n, arr) == [fam |-> "cnt", tbl |-> tbl, feat |-> ft, n |-> n, arr |-> arr]
 
 VARIABLES c,        \* the font case
           at,       \* lkp: 1-based index of the lookup about to be applied (Len + 1 = the terminal lookup)
@@ -110,8 +143,12 @@ IsMx(x) ==
   \/ \E v \in 1 .. 4 : x = [fam |-> "mx", kind |-> "multi", v |-> v]
   \/ \E a \in AdvNames : x = [fam |-> "mx", kind |-> "adv", name |-> a]
 
+IsCnt(x) ==
+  \E tbl \in Tables : \E ft \in CntFeats(tbl) : \E n \in BoundarySizes : \E arr \in Arrangements :
+     x = CntCase(tbl, ft, n, arr)
+
 Init ==
-  /\ IsLkp(c) \/ IsMx(c)
+  /\ IsLkp(c) \/ IsMx(c) \/ IsCnt(c)
   /\ at = 1 /\ depth = 0 /\ budget = RecursionLimit
   /\ out = IF c.fam = "lkp" THEN "run" ELSE "ok"
 
@@ -157,6 +194,10 @@ Outcome ==
      ELSE IF c.shape = "cycle" THEN out = "limit"
      ELSE (out = "limit") <=> (Len(c.kinds) > RecursionLimit + 1)
 
+\* a feature's lookup list is collected completely whatever its size
+CntOK == c.fam = "cnt" => /\ CollectTotal(FeatureList(c.n, c.arr))
+                          /\ Cardinality(ApplySet(FeatureList(c.n, c.arr))) = IF c.arr = "same" THEN 1 ELSE c.n
+
 \* the bounds contain what the strengthening is about (constant level: an assumption, checked by TLC)
 Sanity ==
   /\ CycleLen >= 3 /\ ChainOver >= 1
@@ -168,9 +209,15 @@ Sanity ==
   /\ IsLkp(Chain("gsub", <<"H", "C">>, "grow"))              \* one below
   /\ IsMx([fam |-> "mx", kind |-> "lig", n |-> 2, pat |-> "L", da |-> 1, fda |-> 0, sk |-> 0])   \* C02-r2m1
   /\ IsMx([fam |-> "mx", kind |-> "adv", name |-> "ctx-da-self"])
+     \* lookup lists one below, exactly at and one above the inline capacity, in both tables
+  /\ {InlineCap - 1, InlineCap, InlineCap + 1} \subseteq BoundarySizes
+  /\ IsCnt(CntCase("gpos", "mark", InlineCap + 1, "distinct")) /\ IsCnt(CntCase("gsub", "liga", InlineCap, "same"))
 ASSUME Sanity
 
 Emit ==
   out # "run" =>
-     PrintT(<<"CASE", ToJson(IF c.fam = "lkp" THEN c @@ [hit |-> (out = "limit"), depth |-> depth] ELSE c)>>)
+     PrintT(<<"CASE", ToJson(IF c.fam = "lkp" THEN c @@ [hit |-> (out = "limit"), depth |-> depth]
+                             ELSE IF c.fam = "cnt"
+                               THEN c @@ [napply |-> Cardinality(ApplySet(FeatureList(c.n, c.arr))), spill |-> (c.n > InlineCap)]
+                             ELSE c)>>)
 =============================================================================
